@@ -197,6 +197,14 @@ def do_call(desc):
             er7 = guarded(lambda: o.to_er7(ec) if ec else o.to_er7())
             return ['esc', type(o).__module__ + '.' + type(o).__qualname__, er7,
                     [list(x) for x in hl_in] if hl_in is not None else None]
+        if kind == 'escape_shared':
+            # several values built from ONE list of highlight ranges (the caller's object): encoding reads it, never writes it
+            import hl7apy
+            _, v, cls = desc
+            c = hl7apy.load_library(v).get_base_datatypes()[cls]
+            o = c('h' * 260, highlights=SHARED_HL)
+            er7 = guarded(lambda: o.to_er7())
+            return ['esc-shared', er7, [list(x) for x in SHARED_HL] == SHARED_HL_ORIG]
         if kind == 'retype':
             # a local agreement: one named component of the official structure gets another complex datatype;
             # a fresh component of the same name, built afterwards, must still be the official one
@@ -218,6 +226,9 @@ def do_call(desc):
 
 # ------------------------------------------------------------------------------------------------
 # corpus
+
+SHARED_HL_ORIG = [[i, i + 1] for i in range(238, -2, -4)] + [[i, i + 1] for i in range(4, 240, 4)]
+SHARED_HL = [tuple(x) for x in SHARED_HL_ORIG]
 
 FACTORY_VALUES = {
     'DT': ['20200101', '202013', '2020'],
@@ -305,6 +316,8 @@ def build_corpus(run):
             corpus.append(['escape', v, 'ST', 'ab|cd^ef!gh@i', [[5, 6], [0, 1]], ecname])
         corpus.append(['escape', v, 'FT', 'x~y\\z', None, 'default'])
         corpus.append(['escape', v, 'ST', 'abcdef', [[0, 3], [2, 4]], 'default'])
+        corpus.append(['escape_shared', v, 'ST'])
+        corpus.append(['escape_shared', v, 'FT'])
     import hl7apy
     for v in vs:
         lib = hl7apy.load_library(v)
@@ -1059,6 +1072,10 @@ def sequential_pass(run, corpus, alone, deep_every=40):
                      call=d, object=obj, how='touch point')
         if alone.get(key_of(d)) is not None and r != alone[key_of(d)]:
             stats['seq_differs_from_alone'].append(short(d))
+        if d[0] == 'escape_shared' and r and r[0] == 'esc-shared' and r[2] is not True:
+            run.fail('shared-state-mutated', 'encoding a value re-ordered the list of highlight ranges it was given (an object '
+                     'the caller shares between values)', call=d, object='highlights list', now='re-ordered',
+                     how='the caller\'s list after the call')
         if d[0] == 'retype' and r and r[0] == 'retype' and r[1] != r[4]:
             run.fail('shared-state-mutated', 'changing the datatype of one component changed what a fresh component of that '
                      'name is (the library structure is shared, not copied)', call=d, object='%s datatype' % d[2],
